@@ -187,7 +187,7 @@ def globalMatrices (g : Nat) (gs : GroupSpec) : List Instr :=
   gs.datasets.flatMap (fun d =>
     if d.full then
       [.mark .matrix d.nGmc,
-       .assign (.globalMatrix g d.label) "calculate_dataset_matrix(global)" [.datasetModel g d.label]]
+       .assign (.globalMatrix g d.label) "calculate_dataset_matrix[global_matrix=True]" [.datasetModel g d.label]]
     else [])
 
 /-- `MatrixProviderUnlinked.calculate_prepared_matrices` -/
@@ -195,30 +195,30 @@ def preparedMatrices (g : Nat) (gs : GroupSpec) : List Instr :=
   gs.datasets.flatMap (fun d =>
     if d.full then []
     else
-      .assign (.prepared g d.label) "reduce_matrix(scaled)" [.matrix g d.label, .datasetModel g d.label, .groupParams g] ::
+      .assign (.prepared g d.label) "reduce_matrix" [.matrix g d.label, .datasetModel g d.label, .groupParams g] ::
       (if d.weighted then [.assign (.prepared g d.label) "create_weighted_matrix" [.prepared g d.label]] else []))
 
 /-- `MatrixProviderUnlinked.calculate_full_matrices` -/
 def fullMatrices (g : Nat) (gs : GroupSpec) : List Instr :=
   gs.datasets.flatMap (fun d =>
-    if d.full then [.assign (.fullMatrix g d.label) "kron" [.globalMatrix g d.label, .matrix g d.label]] else [])
+    if d.full then [.assign (.fullMatrix g d.label) "apply_weight|concatenate|kron" [.globalMatrix g d.label, .matrix g d.label]] else [])
 
 /-- one pass of the loop over the global axis in `calculate_estimation` -/
 def estimationIndex (g : Nat) (d : DatasetSpec) : List Instr :=
   [.mark .residual 1,
    .append (.clps g d.label) "retrieve_clps" [.prepared g d.label, .matrix g d.label, .groupParams g],
-   .append (.residuals g d.label) "residual" [.prepared g d.label]]
+   .append (.residuals g d.label) "calculate_residual#1" [.prepared g d.label]]
 
 /-- `EstimationProviderUnlinked.calculate_full_model_estimation` / `calculate_estimation` -/
 def estimateDataset (g : Nat) (d : DatasetSpec) : List Instr :=
   if d.full then
     [.mark .residual 1,
-     .assign (.clps g d.label) "clp(full)" [.fullMatrix g d.label],
-     .assign (.residuals g d.label) "residual(full)" [.fullMatrix g d.label]]
+     .assign (.clps g d.label) "calculate_residual#0" [.fullMatrix g d.label],
+     .assign (.residuals g d.label) "calculate_residual#1" [.fullMatrix g d.label]]
   else
     [.clear (.clps g d.label), .clear (.residuals g d.label)] ++
     (List.range d.nGlobal).flatMap (fun _ => estimationIndex g d) ++
-    [.append (.clpPenalty g) "calculate_clp_penalties" [.clps g d.label, .matrix g d.label, .groupParams g]]
+    [.append (.clpPenalty g) "calculate_clp_penalties" [.groupParams g, .matrix g d.label, .clps g d.label]]
 
 /-- `EstimationProviderUnlinked.estimate` -/
 def estimateUnlinked (g : Nat) (gs : GroupSpec) : List Instr :=
@@ -228,7 +228,7 @@ def estimateUnlinked (g : Nat) (gs : GroupSpec) : List Instr :=
 def alignedMatrices (g : Nat) (gs : GroupSpec) : List Instr :=
   (List.zipIdx gs.aligned).flatMap (fun (ds, i) =>
     [.assign (.alignedLabels g i) "align_full_clp_labels" (gs.datasets.map (fun d => Loc.matrix g d.label)),
-     .assign (.alignedMatrix g i) "align_matrices+reduce+weight"
+     .assign (.alignedMatrix g i) "create_weighted_matrix|reduce_matrix"
         (ds.map (Loc.matrix g) ++ ds.map (Loc.datasetModel g) ++ [.groupParams g])])
 
 /-- `EstimationProviderLinked.estimate` -/
@@ -236,10 +236,10 @@ def estimateLinked (g : Nat) (gs : GroupSpec) : List Instr :=
   (List.range gs.aligned.length).flatMap (fun i =>
     [.mark .residual 1,
      .assign (.lclps g i) "retrieve_clps" [.alignedMatrix g i, .alignedLabels g i, .groupParams g],
-     .assign (.lresiduals g i) "residual" [.alignedMatrix g i]]) ++
+     .assign (.lresiduals g i) "calculate_residual#1" [.alignedMatrix g i]]) ++
   [.assign (.clpPenalty g) "calculate_clp_penalties"
-     ((List.range gs.aligned.length).map (Loc.lclps g) ++ (List.range gs.aligned.length).map (Loc.alignedLabels g) ++
-      [.groupParams g])]
+     (.groupParams g :: ((List.range gs.aligned.length).map (Loc.alignedLabels g) ++
+        (List.range gs.aligned.length).map (Loc.lclps g)))]
 
 /-- `OptimizationGroup.calculate(parameters)` -/
 def groupCalculate (g : Nat) (gs : GroupSpec) : List Instr :=
@@ -250,9 +250,9 @@ def groupCalculate (g : Nat) (gs : GroupSpec) : List Instr :=
 /-- `group.get_full_penalty()` -/
 def groupPenalty (g : Nat) (gs : GroupSpec) : Instr :=
   if gs.linked then
-    .assign (.groupPenalty g) "concatenate" ((List.range gs.aligned.length).map (Loc.lresiduals g) ++ [.clpPenalty g])
+    .assign (.groupPenalty g) "get_full_penalty" ((List.range gs.aligned.length).map (Loc.lresiduals g) ++ [.clpPenalty g])
   else
-    .assign (.groupPenalty g) "concatenate" (gs.datasets.map (fun d => Loc.residuals g d.label) ++ [.clpPenalty g])
+    .assign (.groupPenalty g) "get_full_penalty" (gs.datasets.map (fun d => Loc.residuals g d.label) ++ [.clpPenalty g])
 
 /-- the sweep `for group in self._optimization_groups: group.calculate(self._parameters)` -/
 def sweep (spec : Spec) : List Instr := (List.zipIdx spec).flatMap (fun (gs, g) => groupCalculate g gs)
@@ -260,7 +260,7 @@ def sweep (spec : Spec) : List Instr := (List.zipIdx spec).flatMap (fun (gs, g) 
 /-- the rest of `calculate_penalty` after the sweep: the history row, the penalties of the groups, their
     concatenation -/
 def collect (spec : Spec) : List Instr :=
-  [.log .history "history_row" [.params]] ++
+  [.log .history "_parameters" [.params]] ++
   (List.zipIdx spec).map (fun (gs, g) => groupPenalty g gs) ++
   [.assign .out "concatenate" ((List.range spec.length).map Loc.groupPenalty)]
 
@@ -348,7 +348,7 @@ def Machine.init {P X M D V : Type} (ops : ParamOps P X V) (fn : String → List
   let p := copy c.parameters
   let s0 : Store V := (Store.empty.set .callerParams [ops.val c.parameters]).set .params [ops.val p]
   let s1 := exec fn s0 (initProgram spec)
-  let s2 := exec fn s1 [.log .history "history_row" [.params]]
+  let s2 := exec fn s1 [.log .history "_parameters" [.params]]
   let data := if c.addSvd && !spec.isEmpty then c.data.map (addSvd "data") else c.data
   { caller := { c with data := data }, params := p, store := s2 }
 
@@ -464,6 +464,66 @@ def optimizeRun {P X M D V : Type} (ops : ParamOps P X V) (fn : String → List 
   (m4.caller, m4,
    { success := res.isSome, optimized := m4.params, penalty := pen, history := m4.store.get fn .history, dataVars := vars })
 
+/-! ### outputs: which objects handed out are live references into containers -/
+
+/-- the objects an `Optimizer` hands out -/
+inductive OutField where
+  | penalty                                   -- the array `objective_function` / `calculate_penalty` returns
+  | optimizedParameters                       -- `Result.optimized_parameters`
+  | parameterHistory                          -- `Result.parameter_history`
+  | initialParameters                         -- `Result.initial_parameters`
+  | additionalPenalty (g : Nat)               -- `Result.additional_penalty[g]`
+  | dataMatrix (g : Nat) (d : String)         -- `Result.data[d].matrix`
+  | dataGlobalMatrix (g : Nat) (d : String)   -- `Result.data[d].global_matrix`
+  | dataClp (g : Nat) (d : String)            -- `Result.data[d].clp`
+  | dataResidual (g : Nat) (d : String)       -- `Result.data[d].residual` (and what is computed from it)
+  | jacobian                                  -- `Result.jacobian` (from `least_squares`)
+  | covariance                                -- `Result.covariance_matrix`
+  deriving DecidableEq, Repr, Inhabited
+
+inductive Origin where
+  | copy                 -- a fresh object
+  | live (l : Loc)       -- the very object (or a view of the array) that container `l` holds at hand-out
+  deriving DecidableEq, Repr, Inhabited
+
+/-- `calculate_penalty` (np.concatenate), `create_result`, `create_result_data`, `Matrix/EstimationProvider.get_result` as
+    written: what is wrapped without a copy -/
+def provenance (spec : Spec) : OutField → Origin
+  | .penalty => .copy
+  | .optimizedParameters => .live .params
+  | .parameterHistory => .live .history
+  | .initialParameters => .live .callerParams
+  | .additionalPenalty g =>
+    -- taken BEFORE the last `group.calculate` of `create_result`: a linked provider re-assigns `_clp_penalty` there, so the
+    -- list handed out is one no container holds any more; an unlinked provider clears and refills the same list
+    match spec[g]? with
+    | some gs => if gs.linked then .copy else .live (.clpPenalty g)
+    | none => .copy
+  | .dataMatrix g d => .live (.matrix g d)
+  | .dataGlobalMatrix g d => .live (.globalMatrix g d)
+  | .dataClp _ _ => .copy
+  | .dataResidual _ _ => .copy
+  | .jacobian => .copy
+  | .covariance => .copy
+
+/-- containers whose OBJECT a program updates in place (`clear`, `append`, `+=`); an `assign` puts a NEW object into the
+    container and leaves the one it held as it was -/
+def inPlace : List Instr → List Loc
+  | [] => []
+  | .clear d :: p => d :: inPlace p
+  | .append d _ _ :: p => d :: inPlace p
+  | .log d _ _ :: p => d :: inPlace p
+  | _ :: p => inPlace p
+
+/-- … by one `objective_function` call: the private parameters are set in place, then `calculate_penalty` runs -/
+def evalInPlace (spec : Spec) : List Loc := .params :: inPlace (calculatePenalty spec)
+
+/-- the output is a live reference to an object that a later evaluation on the same `Optimizer` changes -/
+def aliased (spec : Spec) (f : OutField) : Bool :=
+  match provenance spec f with
+  | .copy => false
+  | .live l => decide (l ∈ evalInPlace spec)
+
 /-! ### driver: values are provenance sets (which parameter vectors a value was computed from) -/
 open Glotaran.Proto
 
@@ -560,6 +620,17 @@ def showOutcome : Outcome Prov → String
   | .setFailed => "set-failed"
   | .refreshFailed => "refresh-failed"
 
+/-- the outputs of a scheme, under the names the harness uses -/
+def outFields (spec : Spec) : List (String × OutField) :=
+  [("penalty", .penalty), ("optimized_parameters", .optimizedParameters), ("parameter_history", .parameterHistory),
+   ("initial_parameters", .initialParameters), ("jacobian", .jacobian), ("covariance_matrix", .covariance)] ++
+  (List.zipIdx spec).flatMap (fun (gs, g) =>
+    (s!"additional_penalty:{g}", OutField.additionalPenalty g) ::
+    gs.datasets.flatMap (fun d =>
+      [(s!"matrix:{encodeStr d.label}", OutField.dataMatrix g d.label), (s!"clp:{encodeStr d.label}", .dataClp g d.label),
+       (s!"residual:{encodeStr d.label}", .dataResidual g d.label)] ++
+      (if d.full then [(s!"global_matrix:{encodeStr d.label}", OutField.dataGlobalMatrix g d.label)] else [])))
+
 /-- protocol
     `spec <groups>`                      groups = [[linked, [[label, nGlobal, nMc, nGmc, weighted]…], [[labels]…]]…]
     `init <id>`                          `Optimizer(scheme)`; the scheme's parameter vector gets the id
@@ -567,6 +638,7 @@ def showOutcome : Outcome Prov → String
     `pen <fault> <refresh raises T/F>`   `calculate_penalty()`
     `optimize <id> <[trial ids]> <result id|none>`   `optimize(scheme)` for the observed behaviour of least_squares
     `steps`                              number of micro-steps, matrix calls, residual calls of one evaluation
+    `outputs`                            per output of the scheme: `<name>=<live reference T/F><aliased T/F>`
     `kernels`                            the race-freedom verdict per kernel of the regenerated table
    every answer: `<outcome> | <containers>` -/
 def driverStep (table : List Kernel) (st : DState) (ts : List Tree) : DState × String :=
@@ -608,6 +680,9 @@ def driverStep (table : List Kernel) (st : DState) (ts : List Tree) : DState × 
     let prog := calculatePenalty st.spec
     let cnt (k : CallKind) := prog.foldl (fun acc i => match i with | .mark k' c => if k' = k then acc + c else acc | _ => acc) 0
     (st, s!"{prog.length} {cnt .matrix} {cnt .residual} {showBool (wellDefined [.params] prog)}")
+  | [.atom "outputs"] =>
+    (st, " ".intercalate ((outFields st.spec).map (fun p =>
+      s!"{p.1}={showBool (decide (provenance st.spec p.2 ≠ .copy))}{showBool (aliased st.spec p.2)}")))
   | [.atom "kernels"] =>
     (st, showList (table.map (fun k =>
       showList [encodeStr k.name, showBool k.parallel, showBool (hasParallelLoop table k), showBool (raceFree table k)])))
